@@ -213,7 +213,7 @@ func (g *G) TokExpr(d int, noRound bool) string {
 	case 0:
 		return g.Pick("0", "1", "2", "2.5", "10", "0.5", "3")
 	case 1:
-		return "'" + g.Pick("", "a", "10", "x", "(", "a*", "[", "$1", "b", " ") + "'"
+		return "'" + g.Pick("", "a", "10", "x", "(", "a*", "[", "$1", "b", " ", "é", "aé", "中", "éé中", "ab", "abc") + "'"
 	case 2, 3:
 		return g.tokPath(d, noRound)
 	case 4:
